@@ -227,6 +227,21 @@ impl Vocab {
     /// the names of a month in a language: long names (sorted), then short names (sorted). For the two shipped
     /// languages the table is fixed HERE (the calendar's month names are facts, not configuration: a configuration
     /// or loader that maps a name to the wrong month must not be believed); other languages follow config.json.
+    /// the names a date of that month is PRINTED with: (long name - used when the year is not shown, short name - used
+    /// with the year). For Turkish these are the language's own spellings (Şubat, Ağustos ...), not the ASCII typing
+    /// aids that are accepted on input; None for a language whose tables are read from config.json.
+    pub fn month_print_names(&self, lang: &str, month: u32) -> Option<(String, String)> {
+        const EN: [(&str, &str); 12] = [("January", "Jan"), ("February", "Feb"), ("March", "Mar"), ("April", "Apr"), ("May", "May"), ("June", "Jun"), ("July", "Jul"), ("August", "Aug"), ("September", "Sep"), ("October", "Oct"), ("November", "Nov"), ("December", "Dec")];
+        const TR: [(&str, &str); 12] = [("Ocak", "Oca"), ("Şubat", "Şub"), ("Mart", "Mar"), ("Nisan", "Nis"), ("Mayıs", "May"), ("Haziran", "Haz"), ("Temmuz", "Tem"), ("Ağustos", "Ağu"), ("Eylül", "Eyl"), ("Ekim", "Eki"), ("Kasım", "Kas"), ("Aralık", "Ara")];
+        if !(1..=12).contains(&month) {
+            return None;
+        }
+        match lang {
+            "en" => Some((EN[month as usize - 1].0.to_string(), EN[month as usize - 1].1.to_string())),
+            "tr" => Some((TR[month as usize - 1].0.to_string(), TR[month as usize - 1].1.to_string())),
+            _ => None,
+        }
+    }
     pub fn month_names(&self, lang: &str, month: u32) -> Vec<String> {
         const EN_LONG: [&str; 12] = ["january", "february", "march", "april", "may", "june", "july", "august", "september", "october", "november", "december"];
         const EN_SHORT: [&str; 12] = ["jan", "feb", "mar", "apr", "may", "jun", "jul", "aug", "sep", "oct", "nov", "dec"];
